@@ -658,6 +658,8 @@ def run(tier, seed, jobs=16):
     dom = _domain(tier, seed)
     results = common.pmap(_shard, [(tier, seed, s) for s in range(NSHARDS)], jobs)
     acc = common.merge(results)
+    from . import ctx_contracts as _ctx      # run-time contracts of PrettyContext (exhaustive over field subsets)
+    _ctx.check(acc)
     acc['counters']['cpu_s'] = round(acc['counters'].get('cpu_s', 0), 1)
     acc['counters']['wall_s'] = round(time.time() - t0, 1)
     fam = {}
@@ -684,6 +686,9 @@ def run(tier, seed, jobs=16):
 
 
 def replay(case):
+    if isinstance(case, dict) and case.get('check') == 'ctx':
+        from . import ctx_contracts as _ctx
+        return _ctx.replay(case)
     try:
         spec = parse_spec(case['expr'])
     except Exception as e:                                       # noqa
